@@ -31,7 +31,7 @@ def facts : _root_.Wakeup.Params where
     | .schedule => scheduleJob.2.2 | .delete => deleteJob.2.2 | .pause => pauseJob.2.2
     | .resume => resumeJob.2.2 | .clear => clear.2.2
   stepSends := fetchAndReschedule.1 && fetchAndReschedule.2.1
-  rereads := loopRereads && decide (loopOrder = ["Size", "calculateNextTick", "timer.Reset", "select"])
+  rereads := loopRereads && decide (loopOrder = ["backingOff", "Size unless backingOff", "calculateNextTick", "timer.Reset", "select"])
 
 end Generated.Wakeup
 
